@@ -115,6 +115,16 @@ pub fn judge_hide(ctx: &mut Ctx, c: &HideCase) {
             _ => ctx.violate("C12:depends-on-unused-padding", format!("changing alignment-padding octets {}..16 (not needed to reach a multiple of 16) changed the output", used), c.witness()),
         }
     }
+    // a twin that differs in memory but not on the wire (absent text given as Some("")) must hide
+    // to the same octets
+    if let Some(twin) = glue::noncanonical_twin(&ca) {
+        ctx.rep.bucket("hide.noncanonical_twin");
+        match exec::hide(twin, &c.secret, c.rv, &c.lp, &c.ap) {
+            Ok(h2) if hidden_value(&h2).map(|x| x.1) == Some(want.clone()) => {}
+            Ok(h2) => ctx.violate("C12:noncanonical-twin:octets", format!("the same AVP with its absent text given as Some(\"\") hides to {:?}", hidden_value(&h2).map(|x| crate::report::hex(&x.1[..x.1.len().min(48)]))), c.witness()),
+            Err(p) => ctx.violate(format!("C12:noncanonical-twin:hide-panic:{}", p.class()), format!("hide panicked for the same AVP with its absent text given as Some(\"\"): {}", p.message), c.witness()),
+        }
+    }
     // the same hide on a fresh thread, in its body and from thread-local destructors at teardown
     if ctx.tier != Tier::Miri && c.lp.len() <= 2000 && c.secret.len() <= 4096 && ctx.rng.chance(1, 32) {
         let direct: Out<Vec<u8>> = Out::Ok(want.clone());
